@@ -202,11 +202,16 @@ def replay_by_task(dispatch):
         if t is None:
             return None
         t = _tuplify(t)
-        rep = dispatch(t)
         sig = case.get('sig')
-        for v in rep.violations:
-            if sig is None or v['signature'] == sig:
-                return v['what']
+        # first the narrowed task; if the failure depends on what the task did before
+        # (state carried across cases), the whole task
+        for tt in (t, t[:-1] + (None,)):
+            rep = dispatch(tt)
+            for v in rep.violations:
+                if sig is None or v['signature'] == sig:
+                    return v['what']
+            if tt[-1] is None:
+                break
         return None
     return replay
 
